@@ -148,9 +148,16 @@ func (l *PackageDeployer) Deploy(
 	}
 
 	// Check constraints
-	if err := validateConstraints(ctx, l.uncachedClient, apiPkg, pkg.Manifest, env); err != nil {
+	constraintsMet, err := checkConstraints(ctx, l.uncachedClient, apiPkg, pkg.Manifest, env)
+	if err != nil {
 		setInvalidConditionBasedOnLoadError(apiPkg, err)
 		return err
+	}
+	if !constraintsMet {
+		// The Invalid condition has been set by checkConstraints.
+		// Explicitly do not return an error here, same as for load errors above,
+		// so the condition is reported and the package is not deployed.
+		return nil
 	}
 
 	// prepare package render/template context
@@ -322,11 +329,23 @@ func validateUnique(
 	}
 }
 
+// validateConstraints sets the Invalid condition on apiPkg if a constraint of the manifest is not met.
 func validateConstraints(
 	ctx context.Context,
 	uncachedClient client.Client,
 	apiPkg adapters.GenericPackageAccessor, manifest *manifests.PackageManifest, env manifests.PackageEnvironment,
 ) error {
+	_, err := checkConstraints(ctx, uncachedClient, apiPkg, manifest, env)
+	return err
+}
+
+// checkConstraints reports whether all constraints of the manifest are met in the given environment.
+// If not, the Invalid condition is set on apiPkg with reason ConstraintsFailed.
+func checkConstraints(
+	ctx context.Context,
+	uncachedClient client.Client,
+	apiPkg adapters.GenericPackageAccessor, manifest *manifests.PackageManifest, env manifests.PackageEnvironment,
+) (bool, error) {
 	var messages []string
 	for _, constraint := range manifest.Spec.Constraints {
 		if len(constraint.Platform) > 0 {
@@ -338,7 +357,7 @@ func validateConstraints(
 		if constraint.PlatformVersion != nil {
 			rangeConstraint, err := semver.NewConstraint(constraint.PlatformVersion.Range)
 			if err != nil {
-				return err
+				return false, err
 			}
 			pv := constraint.PlatformVersion
 			var version semver.Version
@@ -352,7 +371,7 @@ func validateConstraints(
 				ok = false
 			}
 			if err != nil {
-				return err
+				return false, err
 			}
 			if !ok {
 				continue
@@ -367,7 +386,7 @@ func validateConstraints(
 
 	extra, err := validateUnique(ctx, uncachedClient, apiPkg, manifest)
 	if err != nil {
-		return err
+		return false, err
 	}
 
 	messages = append(messages, extra...)
@@ -380,9 +399,10 @@ func validateConstraints(
 			Message:            "Constraints not met: " + strings.Join(messages, ", "),
 			ObservedGeneration: apiPkg.ClientObject().GetGeneration(),
 		})
+		return false, nil
 	}
 
-	return nil
+	return true, nil
 }
 
 func platformConstraintMet(
